@@ -866,6 +866,13 @@ func (in *Interp) exec(fr *frame, instr ssa.Instruction) {
 					}
 					return
 				}
+				if re, ok := r.(interface{ RuntimeError() }); ok && re != nil {
+					// package initialisers only: an operation on a poisoned operand (failed type assertion inside the interpreter)
+					if v, ok := instr.(ssa.Value); ok {
+						fr.set(v, Poison{fmt.Sprintf("init: %v", r)})
+					}
+					return
+				}
 				panic(r)
 			}
 		}()
